@@ -145,14 +145,37 @@ def vclass(v, depth=0):
         if v in _ASSUMED:
             return _ASSUMED[v]
         for cand in ("N",):
-            _ASSUMED[v] = cand
+            # co-inductive over the family of loop-carried vectors that refer to each other (the values of one
+            # finite map): assume the class for all of them, then check init / next of every member reached
+            family = {v: leaf}
+            todo = [leaf]
+            while todo:
+                lf = todo.pop()
+                if lf.next is None:
+                    continue
+                for x in tm.free_syms(lf.next):
+                    l2 = folds.STATE_LEAVES.get(x)
+                    if l2 is not None and x not in family and l2.kind == "val" and l2.sibling is not None and len(family) < 40:
+                        family[x] = l2
+                        todo.append(l2)
+            added = [x for x in family if x not in _ASSUMED]
+            for x in added:
+                _ASSUMED[x] = cand
             try:
-                ok_init = leaf.init is tm.GARBAGE or (leaf.sibling is not None and leaf.sibling.init is tm.FALSE) \
-                    or vclass(leaf.init, depth + 1) == cand or (leaf.init.op == "seq" and len(leaf.init.a) == 0)
-                ok_next = leaf.next is None or leaf.next is v or vclass_next(leaf.next, v, cand, depth + 1)
+                ok = True
+                for x, lf in family.items():
+                    if x is not v and not _is_vector_leaf(lf):
+                        continue
+                    ok_init = lf.init is tm.GARBAGE or (lf.sibling is not None and lf.sibling.init is tm.FALSE) \
+                        or vclass(lf.init, depth + 1) == cand or (lf.init.op == "seq" and len(lf.init.a) == 0)
+                    ok_next = lf.next is None or lf.next is x or vclass_next(lf.next, x, cand, depth + 1)
+                    if not (ok_init and ok_next):
+                        ok = False
+                        break
             finally:
-                del _ASSUMED[v]
-            if ok_init and ok_next:
+                for x in added:
+                    del _ASSUMED[x]
+            if ok:
                 return cand
         return None
     if op == "proj" and v.a[3] == "values":
@@ -174,6 +197,10 @@ def vclass(v, depth=0):
     if op == "vneg":
         return vclass(v.a[0], depth + 1)
     if op == "ite":
+        if v.a[1] is tm.GARBAGE or v.a[1].op in ("bottom", "undef_cell"):
+            return vclass(v.a[2], depth + 1)
+        if v.a[2] is tm.GARBAGE or v.a[2].op in ("bottom", "undef_cell"):
+            return vclass(v.a[1], depth + 1)
         a, b = vclass(v.a[1], depth + 1), vclass(v.a[2], depth + 1)
         if a == b:
             return a
@@ -182,10 +209,73 @@ def vclass(v, depth=0):
         return iclass(v.a[0], depth + 1)
     if op == "seq":
         return ("c", len(v.a))
+    if op == "fold":
+        from .c10 import pointwise_sum_fold
+        if pointwise_sum_fold(v):
+            # veclistsum: as long as the longest summand (one element [0] for an empty list): class of the summands
+            # when the list is known non-empty on this path
+            src = v.a[0]
+            lst = src.a[0] if src.op == "iter" else src
+            ne = nonempty_lists()
+            known = any(t.id in ne for t in tm.subterms(lst)) or any(
+                g.op == "not" and g.a[0].op == "is_empty" and any(x is g.a[0].a[0] or x.id == g.a[0].a[0].id for x in tm.subterms(lst))
+                for g in _CTX["gate"])
+            if known:
+                return iclass_elems(src, depth + 1)
+        return None
+    return None
+
+
+def iclass_elems(it, depth):
+    """Common length class of the vectors an iterator yields."""
+    if it.op == "iter":
+        base = it.a[0]
+        if base.op == "collect":
+            return iclass_elems(base.a[0], depth + 1)
+        return None
+    if it.op == "map" and it.a[1].op == "lam":
+        x = tm.fresh("c")
+        return leaves_class(tm.apply_lam(it.a[1], [x]), depth + 1)
+    if it.op in ("filter", "cloned", "copied"):
+        return iclass_elems(it.a[0], depth + 1)
     return None
 
 
 _ASSUMED = {}
+_CTX = {"ev": None, "gate": (), "nonempty": None}
+
+
+def nonempty_lists():
+    """Terms known to be non-empty lists on the current path: the source collection of every enclosing loop
+    (being inside an iteration means an element exists), and anything the gate says is not empty."""
+    if _CTX["nonempty"] is not None:
+        return _CTX["nonempty"]
+    out = set()
+    ev = _CTX["ev"]
+    for g in _CTX["gate"]:
+        if g.op == "in_loop" and ev is not None:
+            info = ev.loops_info.get(g.a[0])
+            if info is not None:
+                for t in tm.subterms(info["iter"]):
+                    out.add(t.id)
+        if g.op == "not" and g.a[0].op == "is_empty":
+            for t in tm.subterms(g.a[0].a[0]):
+                out.add(t.id)
+        if g.op == "lt" and g.a[0] is tm.ZERO and g.a[1].op == "len":
+            out.add(g.a[1].a[0].id)
+        if g.op == "any":
+            for t in tm.subterms(g.a[0]):
+                out.add(t.id)
+    _CTX["nonempty"] = out
+    return out
+
+
+def _is_vector_leaf(lf):
+    """Loop-carried values that are vectors of steps (entries of a map of vectors), not flags or scalars."""
+    n = lf.next
+    if n is None:
+        return False
+    return any(t.op in ("vop", "rep", "vsumover") or (t.op == "proj" and t.a[3] == "values") for t in tm.subterms(n))
 
 
 def vclass_next(n, s, cand, depth):
@@ -194,7 +284,6 @@ def vclass_next(n, s, cand, depth):
         return True
     if n.op == "ite":
         return vclass_next(n.a[1], s, cand, depth + 1) and vclass_next(n.a[2], s, cand, depth + 1)
-    _ASSUMED[s] = cand
     return vclass(n, depth + 1) == cand
 
 
@@ -222,8 +311,16 @@ def lclass(t, depth=0):
     if t.op == "len":
         return vclass(t.a[0], depth + 1)
     if t.op == "ite":
+        c = t.a[0]
+        # `0 < len(L)` / `not is_empty(L)` with L known non-empty on this path
+        if c.op == "lt" and c.a[0] is tm.ZERO and c.a[1].op == "len" and c.a[1].a[0].id in nonempty_lists():
+            return lclass(t.a[1], depth + 1)
         a, b = lclass(t.a[1], depth + 1), lclass(t.a[2], depth + 1)
         return a if a == b else None
+    if t.op == "max_of" and t.a[0].op == "map":
+        # the longest of a list of vectors: their common class
+        x = tm.fresh("c")
+        return lclass(tm.apply_lam(t.a[0].a[1], [x]), depth + 1) if t.a[0].a[1].op == "lam" else None
     return None
 
 
@@ -283,6 +380,78 @@ def defined_cli_args(ctx):
 
 
 CLI_ARGS = [None]
+CLI_NVALUES = [None]
+
+
+def cli_number_of_values(ctx):
+    """{argument name: n} for arguments defined with .number_of_values(<literal n>) in their builder chain:
+    clap then yields exactly n values for that option or rejects the command line (A5)."""
+    out = {}
+    prog = ctx.bin
+
+    def unwrap(ex, a):
+        n = 0
+        while a["k"] in ("scope", "use", "borrow", "deref") and n < 10:
+            a = ex[a.get("v", a.get("src", a.get("arg")))]
+            n += 1
+        return a
+    for b in prog.bodies.values():
+        ex = b["exprs"]
+        for e in ex:
+            if e["k"] != "call":
+                continue
+            t = prog.types[e["fty"]]
+            if not (t["k"] == "fndef" and t["path"].startswith("clap::Arg") and t["name"] == "number_of_values"):
+                continue
+            lit = unwrap(ex, ex[e["args"][1]])
+            if lit["k"] != "lit":
+                continue
+            try:
+                nval = int(str(lit["v"]))
+            except ValueError:
+                continue
+            cur = unwrap(ex, ex[e["args"][0]])
+            for _ in range(40):
+                if cur["k"] != "call":
+                    break
+                tt = prog.types[cur["fty"]]
+                if tt.get("name") == "with_name":
+                    nm = unwrap(ex, ex[cur["args"][0]])
+                    if nm["k"] == "lit" and nm.get("lk") == "str":
+                        out[nm["v"]] = nval
+                    break
+                if not cur["args"]:
+                    break
+                cur = unwrap(ex, ex[cur["args"][0]])
+    return out
+
+
+def refute_cli_values(gate):
+    """index k into the collected values of an option defined with number_of_values(n), k < n."""
+    cond = gate[-1]
+    if cond.op != "le" or cond.a[0].op != "len":
+        return None
+    k = max_of(cond.a[1])
+    v = cond.a[0].a[0]
+    if k is None or CLI_NVALUES[0] is None:
+        return None
+    names = set()
+    t = v
+    # the list is a collect / map / push-in-order of the option's values: same length as cli_values(name)
+    for x in tm.subterms(t):
+        if x.op == "cli_values" and x.a[0].op == "str":
+            names.add(x.a[0].a[0])
+    if len(names) != 1:
+        return None
+    base = t
+    while base.op in ("collect", "map", "iter", "cloned", "copied") and isinstance(base.a[0], tm.T):
+        base = base.a[0]
+    if base.op != "cli_values":
+        return None
+    n = CLI_NVALUES[0].get(list(names)[0])
+    if n is not None and k < n:
+        return "the option is defined with number_of_values(%d): clap yields exactly %d values or rejects the command line (A5)" % (n, n)
+    return None
 
 
 def refute(ev, eff):
@@ -303,10 +472,14 @@ def refute(ev, eff):
         r = refute_bounds(real)
         if r:
             return r
+        _CTX["ev"], _CTX["gate"], _CTX["nonempty"] = ev, gate, None
         r = refute_lengths(real)
         if r:
             return r
         r = refute_nonempty(ev, real)
+        if r:
+            return r
+        r = refute_cli_values(real)
         if r:
             return r
     finally:
@@ -396,6 +569,7 @@ def run(ctx, rep):
     table = load_table()
     used_rows = set()
     CLI_ARGS[0] = defined_cli_args(ctx)
+    CLI_NVALUES[0] = cli_number_of_values(ctx)
     if len(CLI_ARGS[0]) < 10:
         rep.violated("C16/floor/cli-args", "the binary's argument definitions are visible", why=str(sorted(CLI_ARGS[0])))
     total = auto = tabled = 0
